@@ -156,6 +156,19 @@ example : PartOK [66] demoPart := by
   · intro t ht
     simp only [demoPart, Option.some.injEq] at ht
     subst ht
-    refine ⟨⟨by decide, by decide⟩, by decide, by decide, by decide, by decide⟩
+    refine ⟨⟨by decide, by decide⟩, by decide, by decide, by decide⟩
+
+/-- ... and a part whose media type is `application/x-www-form-urlencoded` (the model and the theorems excluded
+    that type until the parser was repaired, /repo 233a847: the hypothesis had marked the defect) -/
+example : PartOK [66] ⟨"q".toList, none, some "application/x-www-form-urlencoded".toList, [97, 61, 49]⟩ := by
+  refine ⟨by decide, ?_, ?_, ?_⟩
+  · intro t ht
+    simp only [hdrTexts, List.mem_cons, List.not_mem_nil, or_false] at ht
+    rcases ht with rfl | rfl <;> decide
+  · decide
+  · intro t ht
+    simp only [Option.some.injEq] at ht
+    subst ht
+    refine ⟨⟨by decide, by decide⟩, by decide, by decide, by decide⟩
 
 end Poor.Props.C08
